@@ -39,8 +39,8 @@ func VerifC28Lock(h *verifrt.H) {
 }
 
 // VerifC28Contended: callers contend for ONE key while queues are being retired and dropped:
-// every schedule (preemption-bounded) of `clients` clients doing `rounds` lock/unlock rounds
-// each. The queue of a key is retired whenever its last caller leaves, so a Lock can look up a
+// every schedule (preemption-bounded) of `clients` clients; the first does `rounds` lock/unlock
+// rounds, the others one. The queue of a key is retired whenever its last caller leaves, so a Lock can look up a
 // queue that is retired before it enqueues. Obligations: one holder at a time, every Lock is
 // granted, and at quiescence no per-key state is left. TTL timers do not fire here.
 func VerifC28Contended(h *verifrt.H) {
@@ -49,8 +49,12 @@ func VerifC28Contended(h *verifrt.H) {
 	holders, finished := 0, 0
 	names := []string{"A", "B", "C"}
 	for c := 0; c < clients; c++ {
+		myRounds := 1 // one client re-locks (so that a fresh queue is created while another caller still holds the old one)
+		if c == 0 {
+			myRounds = rounds
+		}
 		h.Go(names[c], func() {
-			for r := 0; r < rounds; r++ {
+			for r := 0; r < myRounds; r++ {
 				id, err := l.Lock(context.Background(), "k", time.Hour)
 				h.Assert(err == nil, "lock-granted")
 				holders++
